@@ -42,11 +42,11 @@ def pressure_grid(ctx, n):
         ctx.goal('bracket[%d]' % i, ctx.and_(ctx.lt(lev[i + 1], lay[i]), ctx.lt(lay[i], lev[i])))
 
 
-@harness('C11', 'array_pressure', quick=[dict(n=2), dict(n=3), dict(n=3, uniform=True)],
-         thorough=[dict(n=k, uniform=u) for k in (2, 3, 4, 5) for u in (False, True)],
+@harness('C11', 'array_pressure', quick=[dict(n=2), dict(n=3), dict(n=3, uniform=True), dict(n=3, reverse=True), dict(n=3, uniform=True, reverse=True)],
+         thorough=[dict(n=k, uniform=u, reverse=r) for k in (2, 3, 4, 5) for u in (False, True) for r in (False, True)],
          functions=FUNCS, stubs=STUBS,
          outside=['monotonicity of the derived levels for strongly non-uniform arrays (log-spacing ratio > 3): the property is conditional on decreasing levels'])
-def array_pressure(ctx, n, uniform=False):
+def array_pressure(ctx, n, uniform=False, reverse=False):
     """Real ArrayPressureProfile on symbolic decreasing layer pressures: N layers kept as given, N+1 positive
     levels, outermost levels outside the given range; for arrays uniform in log P the levels decrease strictly and
     bracket every layer."""
@@ -59,7 +59,8 @@ def array_pressure(ctx, n, uniform=False):
         P = ctx.reals('P', n, gt=0)
         for i in range(n - 1):
             ctx.assume(P[i] > P[i + 1])
-    pp = ArrayPressureProfile(P.copy())
+    # reverse=True: the table is listed top of the atmosphere first and the class flips it
+    pp = ArrayPressureProfile(P[::-1].copy(), reverse=True) if reverse else ArrayPressureProfile(P.copy())
     pp.compute_pressure_profile()
     lev = pp.pressure_profile_levels
     ctx.goal('counts', len(lev) == n + 1 and len(pp.profile) == n and pp.nLayers == n)
@@ -77,23 +78,25 @@ def array_pressure(ctx, n, uniform=False):
             ctx.goal('decreasing[%d]' % i, ctx.lt(lev[i + 1], lev[i]))
 
 
-@harness('C11', 'hydrostatic', quick=[dict(n=1), dict(n=2), dict(n=3)], thorough=[dict(n=k) for k in (1, 2, 3, 4, 5)],
+@harness('C11', 'hydrostatic', quick=[dict(n=1), dict(n=2), dict(n=3), dict(n=2, int_T=True)],
+         thorough=[dict(n=k) for k in (1, 2, 3, 4, 5)] + [dict(n=3, int_T=True)],
          functions=FUNCS, stubs=STUBS, outside=['layer counts beyond those listed'])
-def hydrostatic(ctx, n):
+def hydrostatic(ctx, n, int_T=False):
     """Real Planet.calculate_scale_properties/gravity/gravity_at_height with symbolic M,R>0, T_l>0, mu_l>0 and
     strictly decreasing positive levels: z_0=0, dz_i = H_i ln(P_i/P_i+1) > 0, z_i+1 = z_i+dz_i,
     H_i = kT_i/(mu_i g_i), g_i = GM/(R+z_i)^2, array lengths (N+1, N, N, N)."""
     import taurex.constants as tc
     import taurex.data.planet as pl
-    M = ctx.real('M', gt=0)
-    R = ctx.real('R', gt=0)
-    T = ctx.reals('T', n, gt=0)
-    mu = ctx.reals('mu', n, gt=0)
-    Pl = ctx.reals('Pl', n + 1, gt=0)
+    M = ctx.real('M', gt=0, hint=(1e26, 3e27))
+    R = ctx.real('R', gt=0, hint=(3e7, 1e8))
+    # int_T: a temperature profile typed as whole numbers (integer dtype), everything else symbolic
+    T = np.array([1400, 1350, 1300][:n]) if int_T else ctx.reals('T', n, gt=0, hint=(300, 3000))
+    mu = ctx.reals('mu', n, gt=0, hint=(1e-27, 1e-26))
+    Pl = ctx.reals('Pl', n + 1, gt=0, hint=(1, 1e6))
     for i in range(n):
         ctx.assume(Pl[i] > Pl[i + 1])
-    G = ctx.const('G', tc.G)
-    KB = ctx.const('KBOLTZ', tc.KBOLTZ)
+    G = tc.G if int_T else ctx.const('G', tc.G)
+    KB = tc.KBOLTZ if int_T else ctx.const('KBOLTZ', tc.KBOLTZ)
     with patched(tc, KBOLTZ=KB), patched(pl, G=G):
         planet = pl.Planet()
         planet._mass = M
